@@ -105,6 +105,10 @@ def main():
     pid = a.pid.upper()
     ctx = Ctx(pid, a.tier, a.seed, a.replay)
     evfile = VERIF / "evidence" / f"{pid}.json"
+    if os.environ.get("VERIF_REPO", "/repo") != "/repo":
+        # development runs against a scratch worktree (seeded changes) never touch the committed evidence
+        (VERIF / ".scratch" / "evidence_dev").mkdir(parents=True, exist_ok=True)
+        evfile = VERIF / ".scratch" / "evidence_dev" / f"{pid}.json"
     rc = 0
     try:
         mod = importlib.import_module(pid.lower())
